@@ -114,7 +114,7 @@ func lfsRecStr(f *desync.File) string {
 	}
 	var data []byte
 	if f.Data != nil {
-		data, _ = io.ReadAll(f.Data)
+		data, _ = readAllDirty(f.Data) // into a buffer that is not zeros to begin with (sparse.go)
 		f.Close()
 	}
 	keys := make([]string, 0, len(f.Xattrs))
@@ -192,7 +192,7 @@ func implLfsRead(line string) string {
 				err = syscall.Mount("none", p, "tmpfs", 0, "")
 			}
 		case "f":
-			err = os.WriteFile(p, e.data, 0644)
+			err = writeFileHoles(p, e.data, 0644) // blocks of zeros stay unallocated: a file with long zero runs is sparse on disk
 		case "l":
 			err = os.Symlink(string(e.data), p)
 		case "v":
@@ -310,7 +310,11 @@ func unescapeMount(s string) string {
 }
 
 // what the sandbox allows (the checks run as root on a file system with user xattrs; degrade quietly elsewhere)
-type lfsCaps struct{ mknod, chown, userXattr, linkXattr, mount bool }
+type lfsCaps struct {
+	mknod, chown, userXattr, linkXattr, mount bool
+	sparseBS                                  int   // block size if files with holes come out sparse on the scratch file system, else 0
+	sparse                                    []int // shapes (sparse.go) of the sparse regular files the next tree gets
+}
 
 func probeLfsCaps(dir string) lfsCaps {
 	var c lfsCaps
@@ -467,6 +471,22 @@ func genLfsTree(rng *rand.Rand, top string, rel bool, caps lfsCaps, wantSkip boo
 		}
 	}
 	fill(rootRel, 1, false)
+	// sparse regular files (holes of several blocks before / between / after data), in directories of the root's file system
+	for i, shape := range caps.sparse {
+		dirs := []string{rootRel}
+		for _, e := range ents {
+			onMount := false
+			for _, s := range skip {
+				onMount = onMount || e.p == s || strings.HasPrefix(e.p, s+"/")
+			}
+			if e.kind == "d" && e.attrs && !onMount && strings.HasPrefix(e.p, mk(rootRel)+"/") {
+				dirs = append(dirs, strings.TrimPrefix(e.p, strings.TrimSuffix(mk(rootRel), rootRel)))
+			}
+		}
+		e := lfsEntry{p: mk(dirs[rng.Intn(len(dirs))] + "/" + []string{"sparse.img", "a.raw"}[i%2]), kind: "f", data: sparseContent(rng, caps.sparseBS, shape)}
+		attrs(&e)
+		ents = append(ents, e)
+	}
 	// a chain that is at least four levels deep, whatever the dice said
 	if rng.Intn(2) == 0 {
 		d := rootRel
@@ -607,10 +627,18 @@ func lfsReadCases(cfg Config, rep *Report, m *Model, rng *rand.Rand, n int) {
 	}
 	top := filepath.Join(cfg.Work, "lfsread", "t")
 	caps := probeLfsCaps(filepath.Join(cfg.Work, "lfsread", "probe"))
-	rep.Histogram[fmt.Sprintf("lfsread:caps mknod=%v chown=%v userxattr=%v linkxattr=%v mount=%v", caps.mknod, caps.chown, caps.userXattr, caps.linkXattr, caps.mount)]++
+	caps.sparseBS = sparseProbe(filepath.Join(cfg.Work, "lfsread", "probe"))
+	rep.Histogram[fmt.Sprintf("lfsread:caps mknod=%v chown=%v userxattr=%v linkxattr=%v mount=%v sparse-block=%d", caps.mknod, caps.chown, caps.userXattr, caps.linkXattr, caps.mount, caps.sparseBS)]++
 	for it := 0; it < n; it++ {
 		rel := rng.Intn(3) == 0
 		wantSkip := it%4 == 3
+		caps.sparse = nil
+		if caps.sparseBS > 0 && it%2 == 0 { // every other tree has a sparse file, the shapes in turn; one in three a second one
+			caps.sparse = []int{(it / 2) % len(sparseShapeNames)}
+			if rng.Intn(3) == 0 {
+				caps.sparse = append(caps.sparse, rng.Intn(len(sparseShapeNames)))
+			}
+		}
 		ents, rootReal, skip := genLfsTree(rng, top, rel, caps, wantSkip)
 		nt := rng.Intn(4) == 0
 		ofs := rng.Intn(6) == 0
@@ -645,8 +673,11 @@ func lfsReadCases(cfg Config, rep *Report, m *Model, rng *rand.Rand, n int) {
 				f.Close()
 			}
 		}
+		if len(caps.sparse) > 0 {
+			sparseMonitor(rep, line, ents)
+		}
 		rep.Compare(m, line, implLfsRead, shrinkLfsRead)
-		if it%3 == 0 { // the same tree end to end: Tar(LocalFS) bytes against tarStream of the model's record stream
+		if it%3 == 0 || len(caps.sparse) > 0 { // the same tree end to end: Tar(LocalFS) bytes against tarStream of the model's record stream
 			rep.Compare(m, line+" tar=1", implLfsRead, shrinkLfsRead)
 			rep.Count(line+" tar=1", len(ents) >= 6, "lfsread:tar-from-disk")
 		}
@@ -662,6 +693,9 @@ func lfsReadCases(cfg Config, rep *Report, m *Model, rng *rand.Rand, n int) {
 		}
 		if root != rootReal {
 			tags = append(tags, "lfsread:root-variant")
+		}
+		for _, s := range caps.sparse {
+			tags = append(tags, "lfsread:sparse-file:"+sparseShapeNames[s])
 		}
 		rep.Count(line, len(ents) >= 6, tags...)
 	}
